@@ -152,6 +152,15 @@ def _leg_lists(ns, res, spec, rng, node, js_batch):
                 res.count('direct_mode_lookups')
                 case = {'leg': 'direct', 'names': names, 'col': col, 'query_text': qtext}
                 check_rows(res, 'query_table(%r, header %r, normalize_column_names=False)' % (qtext, names), case, r['rows'], r['error'] and '%s: %s' % (r['error'], r['error_msg']), expected(col), 'direct')
+                # direct mode with a join: bare names of both tables (no name may be a substring of a name of the other table, the ambiguity test is textual)
+                if not any(x in y or y in x for x in names for y in ('jkey9', 'jval9')):
+                    B = [[A[r][col], 'J%d' % r] for r in range(len(A))]
+                    qj = 'select NR, jval9 join b on %s == jkey9' % nm
+                    rj = boundary.run_query_table(ns, qj, [list(x) for x in A], B, list(names), ['jkey9', 'jval9'], False)
+                    res.evaluations += 1
+                    res.count('direct_mode_join_lookups')
+                    if rj['error'] is not None or rj['rows'] != [[i + 1, 'J%d' % i] for i in range(len(A))]:
+                        res.violation('py:direct-join-wrong-column', 'query_table(%r, headers %r / jkey9, jval9, normalize_column_names=False) -> %r error %r' % (qj, names, rj['rows'], rj['error_msg']), {'leg': 'direct-join', 'names': names, 'col': col, 'query_text': qj})
         # JS twin: a["name"], a['name'], a[`name`], a.name on the JS engine
         if node is not None and not any('\x00' in x for x in names):
             for col in range(len(names)):
